@@ -76,10 +76,10 @@ def kImageMask : Bytes := [73, 109, 97, 103, 101, 77, 97, 115, 107]
 def nA85 : Bytes := [65, 56, 53]
 def nASCII85Decode : Bytes := [65, 83, 67, 73, 73, 56, 53, 68, 101, 99, 111, 100, 101]
 
-/-- The end marker `do_keyword` scans for: `~>` when `/F` is a name, or a non-empty array whose first
+/-- The end marker `do_keyword` scans for: `~>` when `/F` — or, without `/F`, `/Filter` (round 6 `fix:`) — is a name, or a non-empty array whose first
     element is a name, of the ASCII85 filter; anything else names no filter (`EI`). -/
 def eosOf (d : Dict) : Except IErr Bytes :=
-  match lookup d kF with
+  match getAny d [kF, kFilter] with
   | some (.name f) => .ok (if f = nA85 ∨ f = nASCII85Decode then [126, 62] else [69, 73])
   | some (.arr (.name f :: _)) => .ok (if f = nA85 ∨ f = nASCII85Decode then [126, 62] else [69, 73])
   | _ => .ok [69, 73]
